@@ -1,19 +1,19 @@
 (* Machine integers.  The model computes on unbounded Z.  heapq.go does arithmetic on ints only to
    form slice indexes: 2*i+1, lc+1, 2*min+1 (pushDown), i/2 (pushUp), len-1 (pop, Set), len/2
    (NewWithData, Reorder), i-1 (loop steps).  No caller-supplied int is ever negated, added to or
-   multiplied: Peek(n) and Remove(n) only compare n with 0 and len.  For a queue of fewer than
+   multiplied: Peek(n) and Remove(n) only compare n with 0 and len.  For a queue of at most
    2^62 elements every value these expressions take lies in [-1, 2^63-1], so Go's int64 computes
    what Z computes.  From 2^62 elements on (possible only for zero-size element types, e.g.
    struct{}) 2*i+1 wraps to a negative number and pushDown indexes out of range:
    heapq.New(cmp).Set(make([]struct{}, 1<<62+1)) panics at once (reported, notes/C05-audit.md);
    the theorems of C05/C06 are statements about queues of fewer than 2^62 elements. *)
 From Coq Require Import ZArith Lia.
-From Mds Require Import Gen.HeapqIdx.
+From Mds Require Import Gen.HeapqIdx Heapq.HeapqModel Heapq.HeapqInst.
 Local Open Scope Z_scope.
 
 Definition int_max : Z := 2 ^ 63 - 1.
 
-Lemma index_arithmetic_in_range : forall len i, 0 <= i < len -> len < 2 ^ 62 ->
+Lemma index_arithmetic_in_range : forall len i, 0 <= i < len -> len <= 2 ^ 62 ->
   (* pushDown *)
   0 <= lchild i <= int_max /\ 0 <= lchild_next i <= int_max /\
   (forall lc, 0 <= lc < len -> 0 <= rchild lc <= int_max) /\
@@ -37,3 +37,23 @@ Qed.
 (* the bound is sharp: at 2^62 elements the first pushDown of Set (i = len-1) leaves the range *)
 Lemma index_arithmetic_overflows_at_2_62 : int_max < lchild (set_start (2 ^ 62 + 1)).
 Proof. reflexivity. Qed.
+
+(* ---- beyond the bound: Go's int wraps (known finding F14) ---- *)
+Lemma wrap64_small : forall z, - 2 ^ 63 <= z < 2 ^ 63 -> wrap64 z = z.
+Proof. intros z H. unfold wrap64. rewrite Z.mod_small by lia. lia. Qed.
+
+(* if the child index of Set's first iteration (i = len-1) does not wrap, none does *)
+Lemma no_wrap_below : forall n i, 0 <= i < n -> n <= 2 ^ 62 -> wrap64 (lchild i) = lchild i.
+Proof.
+  intros n i Hi Hn. apply wrap64_small. unfold lchild.
+  assert (H63 : 2 ^ 63 = 2 * 2 ^ 62) by reflexivity. lia.
+Qed.
+
+(* the wrapped child index of i = 2^62 is negative: Set on 2^62+1 zero-size elements indexes out of
+   range at Go's int width, while the unbounded model finishes *)
+Lemma int64_refuted_beyond_bound :
+  wrap64 (lchild (2 ^ 62)) = -9223372036854775807 /\
+  zset64 (2 ^ 62 + 1) = ZIndexPanic (-9223372036854775807) /\
+  zset_ideal (2 ^ 62 + 1) = ZOk (2 ^ 62 + 1) /\
+  zset64 (2 ^ 62) = ZOk (2 ^ 62).
+Proof. repeat split; vm_compute; reflexivity. Qed.
